@@ -262,7 +262,7 @@ func (qr *queryRequest) reply(payload []byte) {
 	qr.replied = true
 
 	qr.s.tracef("<=Q %s: %s", qr.rname, payload)
-	err := qr.s.nc.Publish(qr.msg.Reply, payload)
+	err := qr.s.publish(qr.msg.Reply, payload)
 	if err != nil {
 		qr.s.errorf("Error sending query reply %s: %s", qr.rname, err)
 	}
